@@ -35,6 +35,11 @@ fn agree(h: &mut Hist, c: &Cw20, site: &str) -> bool {
         for s in &p.actors {
             let k = (o.clone(), s.clone());
             let a = c.allowance(o, s);
+            let via = c.via_helper(|t, q| t.allowance(q, o.clone(), s.clone())).map(|r| (r.allowance.u128(), Exp::from(&r.expires)));
+            if via != Some(a) {
+                h.violate(&format!("C19/{site}/package-helper-differs-from-point-query"), format!("{o}->{s}: Cw20Contract::allowance gives {via:?}, the Allowance query {a:?}"));
+                return false;
+            }
             let l = by_owner.get(&k).copied();
             let r = by_spender.get(&k).copied();
             h.out.oracle_checks += 1;
@@ -94,7 +99,7 @@ impl C19 {
         if !c.instantiate(&cfg).is_ok() {
             return false;
         }
-        let versions = ["0.13.4", "0.13.0", "0.10.3", "0.9.1", "0.13.2"];
+        let versions = ["0.13.4", "0.13.0", "0.10.3", "0.9.1", "0.13.2", "0.7.0", "0.2.3", "0.1.0"];
         let v = *h.rng.pick(&versions);
         cw2::set_contract_version(&mut c.w.store, "crates.io:cw20-base", v).unwrap();
         let n = h.rng.below(14);
@@ -145,6 +150,18 @@ impl C19 {
             }
             h.out.count("legacy_tables_with_more_than_30_allowances");
             h.note(format!("plus {owners} owners x {per} outside spenders"));
+        }
+        if h.idx % 12 == 9 {
+            // one owner with far more spenders than any page or batch size
+            let o = p.actors[(h.idx as usize / 12) % p.actors.len()].clone();
+            let many = 101 + h.rng.below(120) as usize;
+            for j in 0..many {
+                let s = crate::direct::mk_addr(&format!("wide-spender-{j:03}"));
+                cw20_base::state::ALLOWANCES
+                    .save(&mut c.w.store, (&Addr::unchecked(&o), &Addr::unchecked(&s)), &AllowanceResponse { allowance: Uint128::new(1 + j as u128), expires: Exp::Never.to() })
+                    .unwrap();
+            }
+            h.out.count("legacy_tables_with_more_than_100_allowances_of_one_owner");
         }
         h.note(format!("legacy storage seeded: version {v}, up to {n} allowances, no spender table"));
         // sanity of the seeding itself: the spender view is empty before migration
@@ -219,6 +236,7 @@ impl Monitor for C19 {
             "increases_ok",
             "migrations_run",
             "legacy_tables_with_more_than_30_allowances",
+            "legacy_tables_with_more_than_100_allowances_of_one_owner",
             "zero_allowance_entries_listed_consistently",
         ]
     }
